@@ -693,10 +693,14 @@ def rule_emitter_cap(ctx: Ctx) -> None:
         guarded = False
         p_ = parent(a)
         while p_ is not None and p_ is not fn:
-            if isinstance(p_, ast.If) and any(a is x for b_ in (p_.body + p_.orelse) for x in ast.walk(b_)):
-                names = {x.id for x in ast.walk(p_.test) if isinstance(x, ast.Name)}
-                if ne in names and ctr in names:
-                    guarded = True
+            if isinstance(p_, ast.If):
+                from ..chains import positive
+                pt, negated = positive(p_.test)
+                true_arm = p_.orelse if negated else p_.body
+                if any(a is x for b_ in true_arm for x in ast.walk(b_)):
+                    names = {x.id for x in ast.walk(pt) if isinstance(x, ast.Name)}
+                    if ne in names and ctr in names:
+                        guarded = True
             p_ = parent(p_)
         if guarded:
             ctx.ok("budget.emitter-cap", m, a, what=f"`{ctr}` grows only under a condition relating it to {ne}")
